@@ -160,6 +160,18 @@ def shape_corpus():
     a(mk("str_bytes_mode", [rx(r"\p{Greek}+"), rx(r"(?-u:[\x80-\xff])", prio=1), rx("[a-z]+")], utf8=False))
     a(mk("bytes_raw", [tok(b"\x00\xff"), rx(rb"[\x00-\x10]+"), tok(b"\xfe")], utf8=False))
     a(mk("bytes_hi", [rx(rb"\xF0\x9F[\x80-\xBF]{2}"), rx(rb"[\x80-\xBF]")], utf8=False))
+    # --- byte tables: states with 3 and more outgoing edges (jump tables / LUTs) whose lowest or highest
+    #     transition byte sits exactly on a boundary (00, 01, 3F/40, 7F/80/81, BF/C0, FE/FF)
+    for bnd in (0x00, 0x01, 0x3f, 0x40, 0x7f, 0x80, 0x81, 0xbf, 0xc0, 0xfe, 0xff):
+        lows = [x for x in (0x02, 0x11, 0x23, 0x35) if x < bnd][:3]
+        highs = [x for x in (0xfd, 0xee, 0xdc, 0xca) if x > bnd][:3]
+        if len(lows) >= 2:
+            a(mk("btab_max_%02x" % bnd, [tok(bytes([bnd])), tok(bytes([lows[0]])), tok(bytes([lows[1]]))] + [tok(bytes([x])) for x in lows[2:]], utf8=False))
+            a(mk("btab_in_max_%02x" % bnd, [tok(b"a" + bytes([bnd])), tok(b"a" + bytes([lows[0]])), tok(b"a" + bytes([lows[1]])), rx(b"a")], utf8=False))
+            a(mk("btab_cls_max_%02x" % bnd, [rx(b"(?-u)[\\x%02x-\\x%02x]+" % (lows[1], bnd)), tok(bytes([lows[0]])), tok(b"\x00\x00")], utf8=False))
+        if len(highs) >= 2:
+            a(mk("btab_min_%02x" % bnd, [tok(bytes([bnd])), tok(bytes([highs[0]])), tok(bytes([highs[1]]))] + [tok(bytes([x])) for x in highs[2:]], utf8=False))
+            a(mk("btab_cls_min_%02x" % bnd, [rx(b"(?-u)[\\x%02x-\\x%02x]+" % (bnd, highs[1])), tok(bytes([highs[0]])), tok(b"\xff\xff" if bnd < 0xfe else b"\x05")], utf8=False))
     # --- literals with metacharacters, case folding
     for i, w in enumerate(["a.b", "a+b*", "(x)", "[y]", "{1,2}", "a|b", "^$", "\\d", "a\\", "?", "\"q\"", "a b\tc\n", "(?i)x", "(?&n)"]):
         a(mk("meta%d" % i, [tok(w), rx("[a-z]+")]))
@@ -259,4 +271,71 @@ def random_corpus(seed, n):
         skips = [skip(rng.choice([" ", " +", "[ \t]+", "_"]))] if rng.random() < 0.4 else []
         utf8 = rng.random() < 0.8
         out.append(mk("rnd%d_%d" % (seed, k), leaves, skips, utf8=utf8, tags=["random"]))
+    return out
+
+
+# --- byte-class shapes --------------------------------------------------------------------
+# The generator implements the byte class of an edge as comparisons (a range with isolated holes), as a
+# bit test in a look-up table or as a row of a jump table, and the class of a self loop as a look-up table
+# read 8 bytes at a time.  Which one is chosen depends on the SHAPE of the class (number of ranges, holes of
+# width one, ranges touching 00 or FF).  These definitions put every shape on an edge out of a state with
+# one or two edges (comparisons / LUT), out of a state with four edges (jump table) and on a self loop.
+
+BOUNDS = [0x00, 0x01, 0x2f, 0x30, 0x7e, 0x7f, 0x80, 0x81, 0xbf, 0xc0, 0xfe, 0xff]
+
+
+def class_shapes():
+    """list of (name, [(lo, hi), ...]) : sorted, non-adjacent ranges"""
+    out = []
+    for h in BOUNDS:                                   # everything but one byte
+        rs = [r for r in ((0, h - 1), (h + 1, 255)) if r[0] <= r[1]]
+        out.append(("not_%02x" % h, rs))
+    for h in (0x01, 0x30, 0x7f, 0x80, 0xfe):            # everything but two bytes: adjacent, and one apart
+        for gap in (1, 2):
+            h2 = h + gap
+            if h2 > 255:
+                continue
+            rs = [r for r in ((0, h - 1), (h + 1, h2 - 1), (h2 + 1, 255)) if r[0] <= r[1]]
+            out.append(("not_%02x_%02x" % (h, h2), rs))
+    for lo, hi in ((0x00, 0x2f), (0x00, 0x7f), (0x00, 0x80), (0x30, 0x39), (0x7f, 0x80), (0x80, 0xbf), (0x80, 0xff), (0x81, 0xff), (0xc0, 0xfe), (0x01, 0xfe)):
+        out.append(("rng_%02x_%02x" % (lo, hi), [(lo, hi)]))
+    for a, b, c, d in ((0x00, 0x2f, 0x31, 0x7f), (0x30, 0x39, 0x3b, 0x40), (0x41, 0x5a, 0x61, 0x7a), (0x00, 0x00, 0x02, 0x02), (0x7e, 0x7f, 0x81, 0x82),
+                       (0x10, 0x7f, 0x81, 0xff), (0x00, 0x7f, 0xc0, 0xff), (0xfd, 0xfd, 0xff, 0xff), (0x30, 0x39, 0x80, 0x80)):
+        out.append(("two_%02x_%02x_%02x_%02x" % (a, b, c, d), [(a, b), (c, d)]))
+    for rs in ([(0x00, 0x0f), (0x11, 0x1f), (0x21, 0x2f)], [(0x30, 0x39), (0x41, 0x46), (0x61, 0x66)], [(0x01, 0x01), (0x03, 0x03), (0x05, 0xff)],
+               [(0x00, 0x7e), (0x80, 0x80), (0x82, 0xff)], [(0x10, 0x10), (0x80, 0x80), (0xff, 0xff)]):
+        out.append(("tri_" + "_".join("%02x%02x" % r for r in rs), rs))
+    return out
+
+
+def _cls_text(rs):
+    return b"[" + b"".join((b"\\x%02x" % lo) if lo == hi else (b"\\x%02x-\\x%02x" % (lo, hi)) for lo, hi in rs) + b"]"
+
+
+def class_shape_corpus(tier, seed):
+    rng = random.Random(seed + 7001)
+    shapes = class_shapes()
+    if tier == "quick":
+        keep = [s for s in shapes if s[0] in ("not_00", "not_7f_80", "two_30_39_3b_40")]
+        rest = [s for s in shapes if s not in keep]
+        shapes = keep + rng.sample(rest, 4)
+    out = []
+    for name, rs in shapes:
+        inside = {b for lo, hi in rs for b in range(lo, hi + 1)}
+        outside = [b for b in range(256) if b not in inside]
+        cls = _cls_text(rs)
+        # the lead byte of the pattern and of the other tokens must lie outside the class where that matters
+        # 1. one edge out of the state after the lead byte (comparisons or LUT test)
+        out.append(mk("cls1_" + name, [rx(b"(?-u)\\x58" + cls), tok(b"\x58")], utf8=False, tags=["class"]))
+        # 2. four edges out of that state (jump table): the class + three single bytes outside it, where there are any
+        extra = outside[:1] + outside[len(outside) // 2: len(outside) // 2 + 1] + outside[-1:]
+        extra = sorted(set(extra))
+        if extra:
+            out.append(mk("cls4_" + name, [rx(b"(?-u)\\x58" + cls)] + [tok(bytes([0x58, e, 0x21])) for e in extra] + [tok(b"\x58")], utf8=False, tags=["class"]))
+        # 3. self loop over the class, left through a byte outside it (fast loop: LUT, 8 bytes at a time)
+        if outside:
+            ex = outside[len(outside) // 2]
+            out.append(mk("clsl_" + name, [rx(b"(?-u)\\x58" + cls + b"*\\x%02x\\x21" % ex), tok(bytes([ex]))], utf8=False, tags=["class"]))
+        # 4. self loop at the root (the loop is entered by its own first byte)
+        out.append(mk("clsr_" + name, [rx(b"(?-u)" + cls + b"+")] + ([tok(bytes([outside[0]]) * 2)] if outside else []), utf8=False, tags=["class"]))
     return out
